@@ -204,7 +204,7 @@ def gen_value(rng, prop, old=None, cur=None, coincide=0.0):
         v = _gen_value(rng, prop, old)
         if cur is None or prop not in CT_KEYS or ct_ok(dict(cur, **{prop: v})):
             return v
-    return v
+    return old if old is not None else v          # no other legal value in the pool: assign the same value again
 
 
 def _gen_value(rng, prop, old=None):
@@ -609,8 +609,10 @@ def monitor_settings(ctx, rig):
                 return
             got = [[float(x) for x in a] for a in inst.wavelength_to_pixel]
             if not (len(got) == len(spec_arrays) and all(len(a) == len(b) and all(close(x, y, 1e-9) for x, y in zip(a, b)) for a, b in zip(got, spec_arrays))):
-                ctx.broke('correspondence', 'Czerny-Turner pixel edges vs. independent Python recurrence',
-                          dict(params=rig.params, implementation=str(got)[:300], reference=str(spec_arrays)[:300]))
+                ctx.count('ct-edges-differ-from-reference')
+                if ctx.hist.get('ct-edges-differ-from-reference') == 1:
+                    ctx.broke('correspondence', 'Czerny-Turner pixel edges vs. independent Python recurrence',
+                              dict(params=rig.params, implementation=str(got)[:300], reference=str(spec_arrays)[:300]))
             ctx.count('ct-geometry:' + ('obtuse' if 90 < rig.params['diffraction_angle'] % 360 < 270 else 'acute'))
         arrs = [np.asarray(a, dtype=float) for a in spec_arrays]
         if any(np.any(np.diff(a) <= 0) or not np.all(np.isfinite(a)) for a in arrs):
@@ -768,6 +770,8 @@ def calibrate_cases(ctx, stream, n):
                     ct_params = None
             lo, hi = w2p[0][0], w2p[0][-1]
             smin, smax = lo - rng.choice([0.0, (hi - lo) * 0.1]), hi + rng.choice([0.0, (hi - lo) * 0.1])
+            if ct_params is not None:
+                smin, smax = lo - (hi - lo) * 0.05, hi + (hi - lo) * 0.05
             bins = max(2, int(npix * rng.uniform(0.7, 3.0)))
         elif style < 0.15:       # source bins aligned with dyadic pixel edges
             w2p = [list(np.cumsum([float(math.floor(a[0]))] + [rng.randint(1, 8) / 4.0 for _ in a[1:]])) for a in w2p]
@@ -799,12 +803,12 @@ def calibrate_cases(ctx, stream, n):
         try:
             out = inst.calibrate(sp)
         except Exception as e:  # noqa
-            ctx.fail('C16:Spectrometer:calibrate-raises-on-covering-spectrum', 'calibrate raised %s although the spectrum covers the instrument' % exc_kind(e), desc)
+            ctx.fail('C16:%s:calibrate-raises-on-covering-spectrum' % cls_name, 'calibrate raised %s although the spectrum covers the instrument' % exc_kind(e), desc)
             continue
         centres = [float(x) for x in sp.wavelengths]
         samples = [float(x) for x in sp.samples]
         scale = max(abs(s) for s in samples) if samples else 1.0
-        ctx.count('calibrate:' + ('aligned' if style < 0.25 else 'coarse-source' if style < 0.5 else 'random'))
+        ctx.count('calibrate:' + ((kind + ('-instance' if ct_params else '')) if style >= 0.6 else 'aligned' if style < 0.15 else 'coarse-source' if style < 0.3 else 'random'))
         for arr, vals_ in zip(w2p, out):
             ints = [float(sp.integrate(arr[i], arr[i + 1])) for i in range(len(arr) - 1)]
             got = [float(v) for v in vals_]
@@ -813,7 +817,8 @@ def calibrate_cases(ctx, stream, n):
                 m = [b2f(t) for t in o.split()]
                 return None if m == got else 'calibrate: model %r implementation %r' % (m[:4], got[:4])
             chk.history, chk.what = desc, 'calibrate'
-            stream.add('calib %d %s %s' % (len(arr), fs(arr), fs(ints)), chk, 'value:calibrate')
+            if ct_params is None:
+                stream.add('calib %d %s %s' % (len(arr), fs(arr), fs(ints)), chk, 'value:calibrate')
             ctx.case(key=('calib', fs(arr), bins, f2b(smin)))
             # S: value x width = independent integral of the piecewise-linear spectrum, per pixel and in total
             tot = 0.0
@@ -821,13 +826,17 @@ def calibrate_cases(ctx, stream, n):
                 width = arr[i + 1] - arr[i]
                 ref = pl_integral(centres, samples, arr[i], arr[i + 1])
                 tot += got[i] * width
-                if not close(got[i] * width, ref, 1e-9, 1e-9 * scale * width + 1e-12 * scale * (smax - smin)):
-                    ctx.fail('C16:Spectrometer:calibrate:pixel-integral-not-conserved',
+                if len(got) != len(arr) - 1:
+                    break
+                if not close(got[i] * width, ref, rel, rel * scale * width + 1e-12 * scale * (smax - smin)):
+                    ctx.fail('C16:%s:calibrate:pixel-integral-not-conserved' % cls_name,
                              'pixel [%r,%r]: value*width = %r, spectrum integral = %r' % (arr[i], arr[i + 1], got[i] * width, ref),
                              dict(desc, pixel=i))
             ref = pl_integral(centres, samples, arr[0], arr[-1])
-            if not close(tot, ref, 1e-9, 1e-9 * scale * (arr[-1] - arr[0]) + 1e-12 * scale * (smax - smin)):
-                ctx.fail('C16:Spectrometer:calibrate:total-not-conserved', 'sum value*width = %r, integral over the array = %r' % (tot, ref), desc)
+            if len(got) != len(arr) - 1:
+                ctx.fail('C16:%s:calibrate:wrong-number-of-pixels' % cls_name, '%d values for %d pixels' % (len(got), len(arr) - 1), desc)
+            elif not close(tot, ref, rel, rel * scale * (arr[-1] - arr[0]) + 1e-12 * scale * (smax - smin)):
+                ctx.fail('C16:%s:calibrate:total-not-conserved' % cls_name, 'sum value*width = %r, integral over the array = %r' % (tot, ref), desc)
             # additivity of raysect's integrate (hypothesis of calibrate_total)
             if len(arr) > 2:
                 whole = float(sp.integrate(arr[0], arr[-1]))
